@@ -330,6 +330,8 @@ func checkC03(c *Ctx) {
 	// O6: a histogram uses the bounds it was created with (shared with C20 O4)
 	c.checkBucketCacheGet("O6 own-buckets")
 	c.checkBucketsEqual("O6 own-buckets-equal")
+	// ... and keeps them: the bound table histograms share by reference is written only where it is allocated (shared with C20 O6)
+	c.checkBoundTablePrivate("O6 keeps-bounds")
 }
 
 // checkSearchIndex: A12.
